@@ -250,7 +250,12 @@ def r012_slicing(ctx, rule):
     leak = [s for s in subterms(mk("tuple", tuple(c.data["args"]) + tuple(v for _, v in c.data["kwargs"])))
             if s.op == "attr" and s.args[0] is r.self_term and s.args[1] not in ("postional_argument_names", "kw_argument_mapping")]
     ctx.ob(rule, fq, c.node, not leak, "no per-sample data is taken from the wrapper itself", construct="arguments derive from df only")
-    # writer side
+    # the writer side is a rule group of its own: reader and writer are often rewritten independently (each may need its own normal form)
+    ctx.guard(_r012_writer, ctx, rule)
+
+
+def _r012_writer(ctx, rule):
+    A = Analysis(ctx)
     Aw = Analysis(ctx, no_inline=[AMF + ".__init__"])
     rw = Aw.run(MF + "._construct_annotated_metric_function", cls_ctx=MF)
     st = [e for e in rw.events if e.kind == "store" and e.data.get("tkind") == "sub" and e.loops]
